@@ -72,6 +72,35 @@ def self_name(fn):
     return fn.args.args[0].arg if fn.args.args else None
 
 
+CALL_NODES = {}
+
+
+def _constant_bindings(call, fn_node):
+    """parameters of the callee that this call site fixes to a constant (literal argument, or the literal default
+    of a parameter the call does not pass): {name: value}"""
+    if call is None or fn_node is None:
+        return {}
+    params = [a.arg for a in fn_node.args.args][1:]          # without self
+    defaults = fn_node.args.defaults
+    dmap = {p_: d for p_, d in zip(params[len(params) - len(defaults):], defaults)} if defaults else {}
+    out = {}
+    passed = set()
+    if any(isinstance(a, ast.Starred) for a in call.args) or any(k.arg is None for k in call.keywords):
+        return {}
+    for p_, a in zip(params, call.args):
+        passed.add(p_)
+        if isinstance(a, ast.Constant):
+            out[p_] = a.value
+    for k in call.keywords:
+        passed.add(k.arg)
+        if isinstance(k.value, ast.Constant):
+            out[k.arg] = k.value.value
+    for p_, d in dmap.items():
+        if p_ not in passed and isinstance(d, ast.Constant):
+            out[p_] = d.value
+    return out
+
+
 class AttrUse(ast.NodeVisitor):
     """direct reads / writes of self.<attr> and self.<method>() calls in one function, in order"""
 
@@ -156,6 +185,9 @@ class AttrUse(ast.NodeVisitor):
             for k in node.keywords:
                 self.visit(k.value)
             self.events.append(("call" if self.cond == 0 else "ccall", f.attr, node.lineno))
+            CALL_NODES[(id(self), len(self.events) - 1)] = node
+            self.call_nodes = getattr(self, "call_nodes", {})
+            self.call_nodes[len(self.events) - 1] = node
             return
         if isinstance(f, ast.Attribute) and f.attr in MUTATORS:
             base = f.value
@@ -242,9 +274,21 @@ def object_invariant(cls, entry, g, label=None):
     def expr_events(node):
         v = AttrUse(self_name(meths[cur_method[0]][0]))
         v.visit(node)
-        return v.events
+        calls = getattr(v, "call_nodes", {})
+        return [(k_, a_, calls.get(idx)) if k_ in ("call", "ccall") else (k_, a_, l_) for idx, (k_, a_, l_) in enumerate(v.events)]
 
     cur_method = [entry]
+
+    consts = [{}]          # parameters of the method being summarised that its call site fixes to a constant
+
+    def known_test(test):
+        """True / False when the `if` test is decided by a parameter the call site passes as a literal, else None"""
+        if isinstance(test, ast.Name) and test.id in consts[0]:
+            return bool(consts[0][test.id])
+        if isinstance(test, ast.UnaryOp) and isinstance(test.op, ast.Not):
+            v = known_test(test.operand)
+            return None if v is None else not v
+        return None
 
     def flow(stmts, assigned, stack):
         """(attrs possibly read before assignment, attrs definitely assigned afterwards)"""
@@ -259,12 +303,18 @@ def object_invariant(cls, entry, g, label=None):
                     if attr not in assigned:
                         need.add(attr)
                 elif kind in ("call", "ccall"):
-                    n2, a2 = summary(attr, stack)
+                    callee = meths.get(attr)
+                    n2, a2 = summary(attr, stack, _constant_bindings(_ if isinstance(_, ast.Call) else None, callee[0] if callee else None))
                     need.update(a for a in n2 if a not in assigned)
                     if kind == "call":
                         assigned |= a2
         for st in stmts:
-            if isinstance(st, ast.If):
+            if isinstance(st, ast.If) and known_test(st.test) is not None:
+                # (the branch is fixed by a literal argument of the call being summarised)
+                n1, a1 = flow(st.body if known_test(st.test) else st.orelse, assigned, stack)
+                need |= n1
+                assigned = a1
+            elif isinstance(st, ast.If):
                 use(expr_events(st.test), assigned)
                 n1, a1 = flow(st.body, set(assigned), stack)
                 n2, a2 = flow(st.orelse, set(assigned), stack)
@@ -300,18 +350,24 @@ def object_invariant(cls, entry, g, label=None):
                 use(expr_events(st), assigned)
         return need, assigned
 
-    def summary(name, stack=()):
-        if name in memo:
-            return memo[name]
+    def summary(name, stack=(), bindings=None):
+        key = (name, tuple(sorted((bindings or {}).items(), key=repr)))
+        if key in memo:
+            return memo[key]
         if name in stack or name not in meths:
             return set(), set()
-        prev = cur_method[0]
+        # (a parameter the method assigns itself is not a constant)
+        reassigned = {t.id for st_ in ast.walk(meths[name][0]) if isinstance(st_, (ast.Assign, ast.AugAssign))
+                      for t in (st_.targets if isinstance(st_, ast.Assign) else [st_.target]) if isinstance(t, ast.Name)}
+        prev, prev_c = cur_method[0], consts[0]
         cur_method[0] = name
+        consts[0] = {k_: v_ for k_, v_ in (bindings or {}).items() if k_ not in reassigned}
         try:
             res = flow(meths[name][0].body, set(), stack + (name,))
         finally:
             cur_method[0] = prev
-        memo[name] = res
+            consts[0] = prev_c
+        memo[key] = res
         return res
 
     def needs(name):
@@ -391,7 +447,7 @@ def input_copied(cls, method, param, g, pure_methods_of=None):
                 pm[ch] = n
         return pm
 
-    def resolve(call, enclosing_fn):
+    def resolve(call, enclosing_fn, kw_name=None):
         """the FunctionDef a call refers to (method of the class / function of the module) and the name of the
         parameter that receives the first positional argument; None if unknown"""
         f = call.func
@@ -409,6 +465,8 @@ def input_copied(cls, method, param, g, pure_methods_of=None):
             params = [a.arg for a in target.args.args][0 if static else 1:]
         if target is None or not params:
             return None
+        if kw_name is not None:
+            return (target, kw_name) if kw_name in params else None
         return target, params[0]
 
     def classify(func_node, pname, depth=0):
@@ -432,7 +490,15 @@ def input_copied(cls, method, param, g, pure_methods_of=None):
                          and isinstance(par.func.value, ast.Name) and par.func.value.id in ("copy", "_copy"))):
                     saw_copy[0] = True
                     continue
-                # helper(p, ...) with p as first positional argument
+                # helper(p, ...) with p as first positional argument, or helper(name=p) by keyword
+                if isinstance(par, ast.keyword) and par.value is n and isinstance(pm.get(par), ast.Call) and par.arg and depth < 4:
+                    r = resolve(pm[par], func_node, kw_name=par.arg)
+                    if r is not None:
+                        sub = classify(r[0], r[1], depth + 1)
+                        if not sub:
+                            continue
+                        out.append(f"line {n.lineno}: {pname} passed to {r[0].name}, which may touch it: {sub[0]}")
+                        continue
                 if isinstance(par, ast.Call) and par.args and par.args[0] is n and depth < 4:
                     r = resolve(par, func_node)
                     if r is not None:
